@@ -153,7 +153,11 @@ TEXT = {
           "multiplicity; identically vanishing specialisations give no roots (C11_identically_zero). The whole reference is proved: "
           "C11_rootsUnder_exact - whenever rootsUnder answers, its list denotes exactly the distinct real roots of the specialised "
           "polynomial, strictly increasing, each a valid algebraic number (uses elimY_root: every root of the specialisation is a root "
-          "of the eliminant, from resultant_vanishes; realRoots_isolates; isRootAt_sound; continuity of the specialisation). Generator: rational specialisations, algebraic "
+          "of the eliminant, from resultant_vanishes; realRoots_isolates; isRootAt_sound; continuity of the specialisation). The "
+          "eliminant-free fallback used when the eliminant degenerates to 0 is proved as well: rootsByIntervals_sound (reduceLeading_spec: "
+          "leading coefficients that vanish exactly are dropped without changing the function; rootBoundM_spec: Cauchy bound from interval "
+          "enclosures of the coefficients via Mathlib's cauchyBound; isoLoopM_sound: exclusion / strict monotonicity from the sign of the "
+          "derivative, hasDerivAt_specR, mean value theorem / bisection). Generator: rational specialisations, algebraic "
           "coefficients with spurious conjugate candidates, vanishing leading coefficients and contents, double and rational roots.",
   "design_ref": "5.11",
   "note": "cases whose algebraic zero test exceeds Sylvester order 8, or whose eliminant degenerates to 0 while the specialisation does not, are skipped and counted",
